@@ -41,14 +41,16 @@ MCUser == \E it \in UserItems :
   /\ nUser < UserBudget /\ uq = <<>> /\ gen = <<>> /\ evq = <<>> /\ Legal(it)
   /\ UserPut(it) /\ nUser' = nUser + 1 /\ UNCHANGED nPeer
 MCTick == Tick /\ UNCHANGED <<nPeer, nUser>>
+MCPeerReset == Faults /\ sock = "open" /\ st # 4 /\ PeerReset /\ UNCHANGED <<nPeer, nUser>>
 Sources == {"none", "conn", "frame", "eof", "user", "timer"}
-MCIterate == \E rcv \in BOOLEAN, src \in Sources, inv \in BOOLEAN, fail \in BOOLEAN :
+B(c) == IF c THEN BOOLEAN ELSE {FALSE}
+MCIterate == \E rcv \in BOOLEAN, src \in Sources, inv \in B(Faults), fail \in B(Faults), sf \in B(wdead) :
   /\ (evq # <<>> => (~rcv /\ src = "none"))            \* pinned loop shape: poll only when nothing is pending
-  /\ (inv \/ fail) => Faults
-  /\ \E mi \in {<<>>, <<[k |-> "MSG", f |-> <<0>>]>>} : Iterate(rcv, src, <<0, 0>>, <<0, 0>>, inv, fail, mi)
+  /\ \E mi \in (IF Faults THEN {<<>>, <<[k |-> "MSG", f |-> <<0>>]>>} ELSE {<<>>}) :
+        Iterate(rcv, src, <<0, 0>>, <<0, 0>>, inv, fail, mi, sf)
   /\ UNCHANGED <<nPeer, nUser>>
 
-MCNext == MCPeerSend \/ MCArrive \/ MCPeerFin \/ MCUser \/ MCTick \/ MCIterate
+MCNext == MCPeerSend \/ MCArrive \/ MCPeerFin \/ MCPeerReset \/ MCUser \/ MCTick \/ MCIterate
 MCSpec == MCInit /\ [][MCNext]_mcvars /\ WF_mcvars(MCIterate) /\ WF_mcvars(MCTick) /\ WF_mcvars(MCArrive)
 
 (* liveness: the provider always comes home *)
